@@ -116,7 +116,7 @@ func OpenDir(baseDir string) (*Bundle, error) {
 			ret.registryPackageVersionDeprecations[pkgAddr] = deprecations
 		}
 		for versionStr, mv := range rpm.Versions {
-			version, err := versions.ParseVersion(versionStr)
+			version, err := parseVersion(versionStr)
 			if err != nil {
 				return nil, fmt.Errorf("invalid registry package version %q: %w", versionStr, err)
 			}
@@ -426,4 +426,15 @@ func ExtractArchive(r io.Reader, targetDir string) (*Bundle, error) {
 		return nil, err
 	}
 	return OpenDir(targetDir)
+}
+
+// parseVersion is versions.ParseVersion, except that a number too large for
+// a uint64 is reported as an error: versions.ParseVersion panics for those.
+func parseVersion(s string) (v versions.Version, err error) {
+	defer func() {
+		if r := recover(); r != nil {
+			v, err = versions.Unspecified, fmt.Errorf("version number out of range")
+		}
+	}()
+	return versions.ParseVersion(s)
 }
